@@ -1088,6 +1088,15 @@ def drv_dmrg_frame(doc, args, inst):
     we = wf_errors(y)
     if we:
         msgs.append('result not well formed: %s' % we)
+    if args.get('check_value') and not msgs:
+        if args['which'] == 'fast_matvec':
+            d_ = len(A.N)
+            ref = tn.tensordot(A.full(), x.full(), dims=(list(range(d_, 2 * d_)), list(range(d_))))
+        else:
+            ref = A.full() * x.full()
+        e = relerr(y.full(), ref)
+        if not e < 1e-8:
+            msgs.append('%s (order %d, %s, nswp=%s) differs from the exact product: rel.err %.3g' % (args['which'], len(x.N), x.cores[0].dtype, args.get('nswp'), e))
     return msgs
 
 
